@@ -337,3 +337,40 @@ def whitelist_replay(inputs, clause):
 
 whitelist.replay = whitelist_replay
 UNITS.append(whitelist)
+
+
+# ------------------------------------------------------------------------------ bp_chunked: a chunk, once handed out, stays as it was
+# tag_multiome_multi_processing materialises the chunks (list(bp_chunked(...))) before it hands them to the workers: the
+# counting contract above is about what is yielded at the moment of the yield; here the yielded lists are looked at after
+# the generator has finished (bounded: five bins of one contig).
+_FIVE = [('chr1', 0, 4, 0, 5), ('chr1', 4, 8, 3, 9), ('chr1', 8, 12, 7, 13), ('chr1', 12, 16, 11, 17), ('chr1', 16, 20, 15, 20)]
+
+
+def _chunks_expected(bp):
+    out, cur, n = [], [], 0
+    for j in _FIVE:
+        n += abs(j[2] - j[1])
+        cur.append(j)
+        if n >= bp:
+            out.append(cur)
+            cur, n = [], 0
+    out.append(cur)
+    return out
+
+
+def chunk_list_unit(bp):
+    return Contract(
+        PROP, FU + '::bp_chunked', name='bp_chunked[chunks after the generator has finished, %d bp per job]' % bp,
+        harness='''
+chunks = list(bp_chunked(JOBS, BP))
+return chunks
+''',
+        params={'JOBS': ('const', list(_FIVE)), 'BP': ('const', bp)},
+        ensures={'every_chunk_still_holds_the_bins_it_was_yielded_with': 'result == EXPECTED'},
+        pre_state=lambda eng, fr: eng.spec_env.update({'EXPECTED': _chunks_expected(bp)}),
+        raises={},
+        bounded='five bins of 4 bp on one contig, %d bp per job' % bp,
+    )
+
+
+UNITS += [chunk_list_unit(4), chunk_list_unit(8), chunk_list_unit(100)]
